@@ -1,8 +1,128 @@
+import PyGam.Model.Intervals
 import PyGam.Drv.Common
+/-!
+Driver operations of C09 (`C09 <op> <args…>`), executing the definitions of `Model/Intervals.lean` at `Float`.
+All numbers are IEEE doubles as bit patterns `b<uint64>`.
+
+* `qw <w>`                         → the two quantiles `quantilesOfWidth w`
+* `chk w <w>` | `chk q <q>…`       → `ValueError` | `ok`      (`quantilesRejected (resolveQuantiles …)`)
+* `ref <known:0|1> <n> <edof>`     → `norm` | `t <df>`        (`refDistOf`)
+* `iv <ci|pi|pd> <link> <levels> <scale> <known> <n> <edof> <m> <start> <len>
+      (w <w> | q <k> <q>×k)  <nn> (<q> <z>)×nn  <nt> (<df> <q> <z>)×nt
+      <coef>×m <cov>×m² <nrows> <row>×(nrows·len)`
+  → `ValueError` | `missing-z` | `<b…>… ; <b…>… ; …` one group per row (for `pd` preceded by the point values and ` | `).
+  The two tables are the SciPy quantile functions restricted to the points the harness evaluated
+  (`norm.ppf(q) = z`, `t.ppf(q, df) = z`); a quantile the model asks for that is not in the table prints `missing-z`.
+-/
 namespace PyGam.Drv.C09
 open PyGam PyGam.Drv
 
-/-- operations of the C09 model driver (`C09 <op> <args…>`); `none` ↦ `bad-op` -/
+def parseBool? : String → Option Bool
+  | "1" => some true
+  | "0" => some false
+  | _ => none
+
+def vecOf (a : Array Float) : Nat → Float := fun i => a.getD i 0
+def matOf (m : Nat) (a : Array Float) : Nat → Nat → Float := fun i j => a.getD (i * m + j) 0
+
+/-- bit-pattern equality (so that a table keyed by the harness's floats is looked up exactly) -/
+def sameBits (a b : Float) : Bool := a.toBits == b.toBits
+
+def lookup1 (tab : List (Float × Float)) (q : Float) : Option Float :=
+  (tab.find? (fun p => sameBits p.1 q)).map (·.2)
+
+def lookup2 (tab : List (Float × Float × Float)) (df q : Float) : Option Float :=
+  (tab.find? (fun p => sameBits p.1 df && sameBits p.2.1 q)).map (·.2.2)
+
+def nanF : Float := 0.0 / 0.0
+
+def pairs : List Float → List (Float × Float)
+  | a :: b :: rest => (a, b) :: pairs rest
+  | _ => []
+
+def triples : List Float → List (Float × Float × Float)
+  | a :: b :: c :: rest => (a, b, c) :: triples rest
+  | _ => []
+
+def showRows (rows : List (List Float)) : String := joinWith " ; " (rows.map showFloatList)
+
+/-- parse `(w <w> | q <k> <q>×k)`; returns (width, quantiles, rest) -/
+def parseQSpec? : List String → Option (Float × Option (List Float) × List String)
+  | "w" :: w :: rest => do
+      let w ← parseFloat? w
+      some (w, none, rest)
+  | "q" :: k :: rest => do
+      let k ← k.toNat?
+      if rest.length < k then none else
+      let qs ← parseFloats? (rest.take k)
+      some (0.0, some qs, rest.drop k)
+  | _ => none
+
 def handle : List String → Option String
+  | ["qw", w] => do
+      let w ← parseFloat? w
+      some (showFloatList (quantilesOfWidth w))
+  | ["chk", "w", w] => do
+      let w ← parseFloat? w
+      some (if quantilesRejected (resolveQuantiles w none) then "ValueError" else "ok")
+  | "chk" :: "q" :: qs => do
+      let qs ← parseFloats? qs
+      some (if quantilesRejected (resolveQuantiles (0.0 : Float) (some qs)) then "ValueError" else "ok")
+  | ["ref", known, n, edof] => do
+      let known ← parseBool? known; let n ← parseFloat? n; let edof ← parseFloat? edof
+      some (match refDistOf known n edof with
+        | .normal => "norm"
+        | .studentT df => "t " ++ showFloat df)
+  | "iv" :: mode :: link :: levels :: scale :: known :: n :: edof :: m :: start :: len :: rest => do
+      let link ← LinkKind.ofName? link
+      let levels ← parseFloat? levels; let scale ← parseFloat? scale
+      let known ← parseBool? known; let n ← parseFloat? n; let edof ← parseFloat? edof
+      let m ← m.toNat?; let start ← start.toNat?; let len ← len.toNat?
+      let (width, quantiles, rest) ← parseQSpec? rest
+      -- the two quantile tables
+      let nn ← rest.head?.bind String.toNat?
+      let rest := rest.drop 1
+      if rest.length < 2 * nn then none else
+      let ntab := pairs (← parseFloats? (rest.take (2 * nn)))
+      let rest := rest.drop (2 * nn)
+      let nt ← rest.head?.bind String.toNat?
+      let rest := rest.drop 1
+      if rest.length < 3 * nt then none else
+      let ttab := triples (← parseFloats? (rest.take (3 * nt)))
+      let rest := rest.drop (3 * nt)
+      -- coefficients, covariance, rows
+      if rest.length < m + m * m + 1 then none else
+      let coef := (← parseFloats? (rest.take m)).toArray
+      let cov := (← parseFloats? ((rest.drop m).take (m * m))).toArray
+      let rest := rest.drop (m + m * m)
+      let nrows ← rest.head?.bind String.toNat?
+      let rowToks := rest.drop 1
+      let width_ := if mode == "pd" then len else m
+      if rowToks.length ≠ nrows * width_ then none else
+      let rowArr := (← parseFloats? rowToks).toArray
+      let rows : List (Nat → Float) :=
+        (List.range nrows).map (fun r => fun j => if j < width_ then rowArr.getD (r * width_ + j) 0 else 0)
+      let fit : FitStats Float :=
+        { m := m, coef := vecOf coef, cov := matOf m cov, scale := scale, knownScale := known,
+          nSamples := n, edof := edof, link := link, levels := levels }
+      let normPpf : Float → Float := fun q => (lookup1 ntab q).getD nanF
+      let tPpf : Float → Float → Float := fun df q => (lookup2 ttab df q).getD nanF
+      -- diagnostics only: every quantile the model is going to ask for must be in the supplied table
+      let qs := resolveQuantiles width quantiles
+      let have_ := match refDistOf known n edof with
+        | .normal => qs.all (fun q => (lookup1 ntab q).isSome)
+        | .studentT df => qs.all (fun q => (lookup2 ttab df q).isSome)
+      let out ← match mode with
+        | "ci" => some (confidenceIntervals normPpf tPpf fit width quantiles rows)
+        | "pi" => some (predictionIntervals normPpf tPpf fit width quantiles rows)
+        | "pd" => some (partialDependenceIntervals normPpf tPpf fit start len width quantiles rows)
+        | _ => none
+      match out with
+      | .valueError => some "ValueError"
+      | .ok v =>
+          if !have_ then some "missing-z" else
+          if mode == "pd" then
+            some (showFloatList (rows.map (partialDependencePoint fit start len)) ++ " | " ++ showRows v)
+          else some (showRows v)
   | _ => none
 end PyGam.Drv.C09
